@@ -318,8 +318,9 @@ def run_pred(ctx, p):
             onoff = [bool(t) for t in p['on']]
             u = np.cross(Q - P, np.asarray(p['offdir'], float))
             u = u / np.linalg.norm(u)
-            X = X + np.column_stack([np.zeros(3) if on else u * p['offdist'] * m_ for on in onoff])
-            tol = 1e-9 * m_
+            # points "on" the line carry measurement noise of 1e-10 relative (far above rounding, inside the caller's tolerance)
+            X = X + np.column_stack([u * 1e-10 * max(1.0, float(np.linalg.norm(X[:, i]))) * (1 if i % 2 else -1) if on else u * p['offdist'] * m_ for i, on in enumerate(onoff)])
+            tol = 1e-9          # relative to the data magnitude (documented meaning of tol)
             arr = [bool(t) for t in L.contains(X, tol=tol)]
             each = [bool(L.contains(X[:, i].copy(), tol=tol)) for i in range(X.shape[1])]
             got = (arr, each)
